@@ -300,6 +300,56 @@ class RelativeInfCase(Case):
         return {}
 
 
+class TwoMasksCase(Case):
+    """Two optimizations in one process with the same shapes and complementary masks: the second one's reported
+    gradients are exactly zero on *its* fixed variables (nothing of the first run shows through)."""
+
+    family = "fixed-variables/two-runs"
+
+    def __init__(self, cid, masks=((True, False, True), (False, True, False))):
+        self.id, self.masks = cid, masks
+        self.N = len(masks[0])
+
+    def describe(self):
+        return f"two ensemble evaluators in sequence, masks {self.masks}"
+
+    def inputs(self, env):
+        return {"A": env.reals("a", (1, 1, self.N), lo=-10, hi=10), "c": env.reals("c", (1, 1), lo=-10, hi=10)}
+
+    def run(self, env, inp):
+        from ropt.ensemble_evaluator import EnsembleEvaluator
+
+        out = []
+        for mask in self.masks:
+            cfg = ens.ensemble_config(N=self.N, R=1, P=3, mask=list(mask), lower=-10.0, upper=10.0, x0=[0.25] * self.N)
+            pm = ens.stub_manager()
+            D = np.zeros((1, 3, self.N))
+            free = [j for j in range(self.N) if mask[j]]
+            for p in range(3):
+                D[0, p, free[p % len(free)]] = 1.0 if p % 2 == 0 else -1.0
+            ens.set_samples(lambda s_, D=D: env.const(D))
+            ev = ens.AffineEvaluator(env, inp["A"], inp["c"], {}, 1)
+            ee = EnsembleEvaluator(cfg, None, ev, pm)
+            _, gr = ee.calculate(env.const(np.full(self.N, 0.25)), compute_functions=True, compute_gradients=True)
+            out.append(gr)
+        return out
+
+    def props(self, env, inp, oc):
+        if not oc.ok:
+            return [("no_internal_exception:" + type(oc.exc).__name__, SB(False))]
+        props = []
+        for e, (mask, gr) in enumerate(zip(self.masks, oc.value)):
+            for nm in ("weighted_objective", "objectives"):
+                g = np.asarray(vals(getattr(gr.gradients, nm)), dtype=object)
+                for j in range(self.N):
+                    if not mask[j]:
+                        props.append((f"run{e}.gradients.{nm}.v{j}.zero", all_of(exact(x, ZERO) for x in np.atleast_1d(g[..., j]).flat)))
+        return props
+
+    def observe(self, env, inp, oc):
+        return {}
+
+
 def build_cases(tier):
     cases = []
     k = 0
@@ -337,6 +387,7 @@ def build_cases(tier):
         add(ScipyStartCase, mask)
     add(ScipyStartCase, (True, False), "nelder-mead")
     add(RelativeInfCase, "upper")
+    add(TwoMasksCase)
     add(RelativeInfCase, "lower")
     if tier == "thorough":
         add(mask=(True, False, True, False), nested=True, R=2, C=1)
